@@ -532,8 +532,7 @@ func (g *SummaryGraph) selectNodesFromMark(m Mark) []GraphNode {
 		// and it must have a qualifier representing the argument
 		if callNodes, ok := g.Callees[sourceCallInstr]; ok {
 			for _, callNode := range callNodes {
-				argNode := callNode.FindArg(m.Qualifier)
-				if argNode != nil {
+				for _, argNode := range callNode.FindArgs(m.Qualifier) {
 					nodes = append(nodes, argNode)
 				}
 			}
@@ -617,9 +616,10 @@ func (g *SummaryGraph) addEdge(source MarkWithAccessPath, dest GraphNode, cond *
 		// and it must have a qualifier representing the argument
 		if sourceNodes, ok := g.Callees[sourceCallInstr]; ok {
 			for _, sourceNode := range sourceNodes {
-				sourceCallArgNode := sourceNode.FindArg(source.Mark.Qualifier)
-				if sourceCallArgNode != nil && sourceCallArgNode != dest {
-					updateEdgeInfo(source, dest, cond, sourceCallArgNode)
+				for _, sourceCallArgNode := range sourceNode.FindArgs(source.Mark.Qualifier) {
+					if sourceCallArgNode != dest {
+						updateEdgeInfo(source, dest, cond, sourceCallArgNode)
+					}
 				}
 			}
 		}
@@ -732,11 +732,14 @@ func (g *SummaryGraph) addCallArgEdge(mark MarkWithAccessPath, cond *ConditionIn
 	}
 
 	for _, callNode := range callNodes {
-		callNodeArg := callNode.FindArg(arg)
-		if callNodeArg == nil {
+		callNodeArgs := callNode.FindArgs(arg)
+		if len(callNodeArgs) == 0 {
 			panic("attempting to set call arg edge but no call arg node")
 		}
-		g.addEdge(mark, callNodeArg, cond)
+		// the same value may be passed in several argument positions
+		for _, callNodeArg := range callNodeArgs {
+			g.addEdge(mark, callNodeArg, cond)
+		}
 	}
 }
 
